@@ -57,6 +57,7 @@ try:
                                     "demo_with_patch": "FAIL (" + democmd + ")", "demo_without_patch": "pass"},
                 "detected_by": None}
         json.dump(meta, open(os.path.join(dst, "meta.json"), "w"), indent=1)
+        subprocess.run(["python3", "/verif/tools/seed_meta_enrich.py", f"{pid}-{mn}"])
         print(f"{pid}-{mn}: confirmed")
 finally:
     subprocess.run(["git", "-C", "/repo", "worktree", "remove", "--force", wt])
